@@ -3,7 +3,7 @@
    cwd/, base itself) is exactly as before - nothing created, modified or hard-linked into the destination; when extraction
    reports success every recorded entry is there (the last entry of a path wins) with its payload, permission bits (masked) or
    link target; a name that leaves the destination lexically is refused. *)
-let names = [| "."; ".."; "dst"; "outside"; "a"; "b"; "c"; "lnk"; "x"; "secret"; "cwd"; "f"; "nowhere"; "deep" |]
+let names = [| "."; ".."; "dst"; "outside"; "a"; "b"; "c"; "lnk"; "x"; "secret"; "cwd"; "f"; "nowhere"; "deep"; "dstx"; "made"; "l" |]
 let id_of s = let r = ref (-1) in Array.iteri (fun i n -> if n = s then r := i) names; if !r < 0 then failwith ("name " ^ s) else !r
 let comps (s : string) : nat list = List.filter_map (fun c -> if c = "" then None else Some (nat_of_int (id_of c))) (String.split_on_char '/' s)
 let show_path (p : nat list) = String.concat "/" (List.map (fun c -> names.(int_of_nat c)) p)
@@ -15,6 +15,9 @@ let run (c : string) (obs : string) : string * string * string =
   if obs = "P" then add "kind=panic"; if obs = "HANG" then add "kind=hang";
   let toks = List.filter (fun o -> words o <> []) (String.split_on_char ';' c) in
   match List.map words toks with
+  | ["corrupt"; _; _] :: _ ->
+    if List.mem "ok=1" (words obs) then add "kind=corrupted-entry-reported-as-extracted";
+    ("ok=0", (if !errs = [] then "ok" else "FAIL " ^ String.concat "," (List.rev !errs)), "corrupt-zip")
   | ["efbig"; _; limit; size] :: _ ->
     let fits = int_of_string size <= int_of_string limit in
     (* the statement itself: success is reported exactly when the entry was written in full *)
@@ -27,8 +30,9 @@ let run (c : string) (obs : string) : string * string * string =
     let root = [nat_of_int 2] in
     (* the world below base before extraction *)
     let fs0 = ref (m_mk_fs [ ([nat_of_int 2], NDir (nat_of_int 0o755)); ([nat_of_int 3], NDir (nat_of_int 0o755)); ([nat_of_int 3; nat_of_int 9], NFile (nat_of_int 0));
-                              ([nat_of_int 10], NDir (nat_of_int 0o755)); ([nat_of_int 10; nat_of_int 11], NFile (nat_of_int 1)) ]
-                            [ (nat_of_int 0, nat_of_int 0o644); (nat_of_int 1, nat_of_int 0o644) ]) in
+                              ([nat_of_int 10], NDir (nat_of_int 0o755)); ([nat_of_int 10; nat_of_int 11], NFile (nat_of_int 1));
+                              ([nat_of_int 14], NDir (nat_of_int 0o755)); ([nat_of_int 14; nat_of_int 9], NFile (nat_of_int 2)) ]
+                            [ (nat_of_int 0, nat_of_int 0o644); (nat_of_int 1, nat_of_int 0o644); (nat_of_int 3, nat_of_int 0o644) ]) in
     let entries = ref [] in
     List.iter (function
       | "pre" :: k :: p :: tl ->
